@@ -304,6 +304,15 @@ func (e *Exec) doIndex(fr *Frame, st *State, x *ssa.Index) Value {
 		n := IntLit(u.Len())
 		e.safety(st, "safe:index", render(x, 0), And(Le(IntLit(0), idx), Lt(idx, n)), e.posOf(x), idx)
 		e.assume(st.pc, And(Le(IntLit(0), idx), Lt(idx, n)))
+		if et, ok := arrayElem(x.X.Type()); ok {
+			if vid, ok := e.val(fr, x.X).(*Term); ok && vid.Sort == SInt {
+				s := sortOf(et)
+				h := e.heapRead(st, arrComp(et), ArrSort(ArrSort(s)))
+				v := e.def(s, Select(Select(h, vid), idx))
+				e.assumeLoaded(st, et, v)
+				return v
+			}
+		}
 	case *types.Basic:
 		if u.Info()&types.IsString != 0 {
 			s := e.term(fr, st, x.X)
